@@ -119,7 +119,9 @@ Apply(A) ==
        /\ UNCHANGED <<now, up, servers>>
        /\ (IF HasDisk(Ev.post) THEN TRUE ELSE UNCHANGED disk)
        /\ seen' = [id \in DOMAIN live' |->
-                     IF id \in DOMAIN seen THEN seen[id] ELSE EmptyFn]
+                     IF id \in DOMAIN seen
+                     THEN Only(seen[id], offset' .. (offset' + Window - 1))
+                     ELSE EmptyFn]
 
 Step == l' = l + 1
 KeepAux == UNCHANGED <<pend, rot, atag>>
@@ -157,7 +159,10 @@ TStart ==
                   /\ MatchPost(Ev.post)
                   /\ UNCHANGED <<now, servers>>
                   /\ (IF HasDisk(Ev.post) THEN TRUE ELSE UNCHANGED disk)
-                  /\ seen' = [id \in DOMAIN live' |-> EmptyFn]
+                  /\ seen' = [id \in DOMAIN live' |->
+                                IF id \in DOMAIN seen
+                                THEN Only(seen[id], offset' .. (offset' + Window - 1))
+                                ELSE EmptyFn]
           /\ PostSane(Ev.post)
           /\ atag' = NewTags(Ev.post)
      ELSE /\ IF "Start" \in Strict THEN StartFailed
@@ -173,11 +178,24 @@ TClose ==
   /\ ("Close" \in Strict => Ev.panic = "" /\ ~Ev.hang)
   /\ KeepAux
 
+(* The start-up loop's poll is also the first observation of the state that *)
+(* was loaded from disk.                                                    *)
 TCatchUpPoll ==
   /\ Ev.a = "CatchUpPoll"
   /\ ("Rotate" \in Strict => up = "catchup" /\ Ev.ero = offset /\ rot = "idle")
   /\ rot' = IF CatchUpDue(Ev.ero, Ev.t) THEN "due" ELSE "idle"
-  /\ UNCHANGED <<vars, pend, atag>>
+  /\ IF "Start" \in Strict
+     THEN IF l = DiagLine THEN UNCHANGED vars /\ Diag(Ev.post)
+          ELSE UNCHANGED vars /\ MatchPost(Ev.post)
+     ELSE /\ MatchPost(Ev.post)
+          /\ UNCHANGED <<now, up, servers>>
+          /\ (IF HasDisk(Ev.post) THEN TRUE ELSE UNCHANGED disk)
+          /\ seen' = IF HasDisk(Ev.post)
+                     THEN SeenFrom(disk'.reports, equip', offset')
+                     ELSE [id \in DOMAIN live' |-> EmptyFn]
+  /\ PostSane(Ev.post)
+  /\ atag' = NewTags(Ev.post)
+  /\ UNCHANGED pend
 
 TRotPoll ==
   /\ Ev.a = "RotPoll"
